@@ -1123,6 +1123,23 @@ def c19(run):
     run.validate("Trace_Interp.tla", ["C26"], t3, "cursor")
 
 
+def has_nested(sc):
+    return any(e.get('ev') == 'serde' and '"t": "map"' in json.dumps(e.get('json', {}).get('ents', [])) for e in sc)
+
+
+def c32(run):
+    run.cov["rule"] = ("histories with nested maps, lists, text, conflicted registers, counters and strings; every replica is "
+                       "serialised through AutoSerde to serde_json and to a serializer that enforces serde's length contract "
+                       "(entries fed = length announced); the JSON image must equal the image Trace_Interp derives from the "
+                       "decoded ops (winners only, text as strings, counters as numbers); non-trivial = scenario whose image "
+                       "has a nested map")
+    t = os.path.join(run.work, "serde.ndjson")
+    drive(["serde", run.seed, sizes(run, 150, 4000), t])
+    run.validate("Trace_Interp.tla", ["C32"], t, "serde")
+    count_nontrivial(run, t, has_nested)
+    sample_scenario(run, t, has_nested, maxlen=4)
+
+
 def replay(run, path):
     """re-validate a recorded violating scenario"""
     from . import tlc_trace
@@ -1149,6 +1166,7 @@ REG = {
     "C24": ("model_checking", c24),
     "C30": ("model_checking", c30),
     "C34": ("model_checking", c34),
+    "C32": ("model_checking", c32),
     "C15": ("fault_enumeration", c15),
     "C16": ("fault_enumeration", c16),
     "C17": ("fault_enumeration", c17),
